@@ -24,4 +24,21 @@ func init() {
 		DesignRef: "DESIGN.md §6 C01",
 		Technique: technique,
 	})
+	register(Check{
+		ID: "C10", Title: "Lexical scoping and structured control flow", Level: "model_checking",
+		Units: []Unit{evalUnit([]string{"evaluator/common.go", "evaluator/gen.go", "evaluator/c10.go"},
+			Harness{Fn: "ZZC10Structure", Quick: p("D", 2, "L0", 1, "L1", 1, "L2", 1), Thorough: p("D", 2, "L0", 1, "L1", 2, "L2", 1), ThoroughBudget: 25 * time.Minute, Expect: []string{"structure-ok", "witness:end"}},
+			Harness{Fn: "ZZC10Range", Quick: p("U", 3), Thorough: p("U", 5), Expect: []string{"range-ok", "zero-step", "witness:end"}, Cross: true},
+		)},
+		Assumptions: []string{
+			"program family: nestings up to depth D of if / if-else / while / for over num, array, string, map / procedure call (defined after use), with shadowing declarations of x, assignments, prints, break and return in every legal position; blocks of at most L0/L1/L2 statements at depth 0/1/2; the global x and both condition variables are symbolic",
+			"numeric ranges: start, stop, step unconstrained finite float64; ranges of more than U iterations are cut by an assumption on the harness side (stated bound), not by truncation",
+			"the reference interpreter in the harness is written from docs/spec.md and trusted",
+		},
+		Outside:   []string{"deeper nesting / longer blocks", "recursion", "NaN or infinite range operands (outside the property's quantifier)"},
+		LevelText: "bounded symbolic execution of the parser's scope handling and of evalStatments/evalIf/evalWhile/evalFor/newRange/newStepRange/stepRange,arrayRange,stringRange,mapRange.next/pushScope/pushFuncScope/evalFunccall/scope.get,set,update on every generated nesting and every finite range triple, compared with an independent reference interpreter on the same symbolic values",
+		LevelNote: "trusts the reference interpreter and generator in the harness, the engine and cvc5",
+		DesignRef: "DESIGN.md §6 C10",
+		Technique: technique,
+	})
 }
